@@ -17,8 +17,11 @@
    code derives them (pointer/length pairs from the buffer traits, offset as
    written).  Each step records the result obtained through the path (res) and
    the result of the OS's own synchronous call for the same request (ref); the
-   invariant PathsAgreeModuloKnown says they are equal except for the named
-   deviations of the pinned tree:
+   invariant PathsAgree says they are equal.  Four deviations of the pinned
+   tree (d4dae75) were found with this model and repaired in /repo; they are
+   kept as switches (constant Devs, empty for the current tree) so that the
+   control configuration MC_FileModel_old.cfg with the old behaviour must
+   violate PathsAgree:
 
      DevIourReadvAtInitLens   io_uring ReadVectoredAt::init uses sys_slices() (initialized lengths)
      DevReadvInitLens         ReadVectored::init uses sys_slices() on both drivers (pipes)
@@ -29,7 +32,8 @@
    the OS reference and of the implementation are no longer the same.        *)
 EXTENDS Integers, Sequences, FiniteSets, TLC
 
-CONSTANTS Groups,      \* subset of {"data","open","ns","pipe"}
+CONSTANTS Devs,        \* deviations switched on: subset of AllDevs (empty = the repaired tree)
+          Groups,      \* subset of {"data","open","ns","pipe"}
           Drivers,     \* subset of {"iour","poll","iour_blk"}
           MaxOps,
           InitFiles,   \* initial contents of file "f" (data group)
@@ -52,6 +56,7 @@ CONSTANTS Groups,      \* subset of {"data","open","ns","pipe"}
           PWBufs, PRBufs, PVWBufs, PVRBufs
 
 MAXOFF == -1
+AllDevs == {"DevIourReadvAtInitLens", "DevReadvInitLens", "DevIourOffsetMaxIsCursor", "DevOpenFallbackFd0"}
 
 VARIABLES grp, drv, st, last, steps
 vars == <<grp, drv, st, last, steps>>
@@ -170,13 +175,14 @@ ReadEff(op, p) ==
       isMax == (~cursor) /\ op.off = MAXOFF
       offU == IF cursor THEN st.cur ELSE op.off
       \* DevIourOffsetMaxIsCursor: the entry passes the offset through; -1 = use and advance f_pos
-      useFpos == isMax /\ p = "iour_entry"
+      useFpos == isMax /\ p = "iour_entry" /\ "DevIourOffsetMaxIsCursor" \in Devs
       eoff == IF useFpos THEN f.pos ELSE offU
       caps == CapLens(op.bufs)
+      initSl == vec /\ p = "iour_entry" /\ "DevIourReadvAtInitLens" \in Devs
       \* DevIourReadvAtInitLens: ctrl.slices = self.buffer.sys_slices()   (general/iour.rs)
       \* the polling driver uses init_vec_mut -> sys_slices_mut()        (general/poll.rs)
-      sysl == IF vec /\ p = "iour_entry" THEN InitLens(op.bufs) ELSE caps
-      dev == (vec /\ p = "iour_entry" /\ InitLens(op.bufs) # caps) \/ useFpos
+      sysl == IF initSl THEN InitLens(op.bufs) ELSE caps
+      dev == (initSl /\ InitLens(op.bufs) # caps) \/ useFpos
       ref == IF isMax THEN Err("InvalidInput")
              ELSE IF ~f.rd THEN Err("BadFd") ELSE ReadRes(c, offU, op.bufs, caps, vec)
       res == IF isMax /\ ~useFpos THEN Err("InvalidInput")
@@ -194,7 +200,7 @@ WriteEff(op, p) ==
       cursor == op.o = "cwrite"
       isMax == (~cursor) /\ op.off = MAXOFF
       offU == IF cursor THEN st.cur ELSE op.off
-      useFpos == isMax /\ p = "iour_entry"
+      useFpos == isMax /\ p = "iour_entry" /\ "DevIourOffsetMaxIsCursor" \in Devs
       total == Sum(SrcLens(op.bufs))
       bytes == Tag(total)
       eoff == IF f.app THEN Len(c) ELSE IF useFpos THEN f.pos ELSE offU     \* O_APPEND ignores the offset
@@ -232,7 +238,7 @@ OpenEff(op, pth) ==
       opened(s, i) == [s EXCEPT !.fd = [open |-> TRUE, ino |-> i, rd |-> o.r, wr |-> o.w, app |-> o.app, pos |-> 0],
                                 !.cur = 0]
       created == opened([st EXCEPT !.ns[tp] = FileN(st.next), !.next = @ + 1], st.next)
-      Opened(s) == IF pth = "blocking_fallback"
+      Opened(s) == IF pth = "blocking_fallback" /\ "DevOpenFallbackFd0" \in Devs
                    THEN E([s EXCEPT !.fd = NoFd, !.cur = 0], Err("WrongDescriptor"), Ok(0), TRUE)
                    ELSE E(s, Ok(0), Ok(0), FALSE)
   IN IF invalid THEN Same(Err("InvalidInput"))
@@ -343,11 +349,12 @@ PReadEff(op) ==
   LET vec == op.o = "preadv"
       caps == CapLens(op.bufs)
       \* DevReadvInitLens: ReadVectored::init uses sys_slices() in general/iour.rs AND general/poll.rs
-      sysl == IF vec THEN InitLens(op.bufs) ELSE caps
+      initSl == vec /\ "DevReadvInitLens" \in Devs
+      sysl == IF initSl THEN InitLens(op.bufs) ELSE caps
       ref == ReadRes(st.pipe.buf, 0, op.bufs, caps, vec)
       res == ReadRes(st.pipe.buf, 0, op.bufs, sysl, vec)
       s1 == [st EXCEPT !.pipe.buf = Drop(@, res.n), !.pipe.pr = @ \o Sub(st.pipe.buf, 1, res.n)]
-  IN E(s1, res, ref, vec /\ InitLens(op.bufs) # caps)
+  IN E(s1, res, ref, initSl /\ InitLens(op.bufs) # caps)
 
 \* ---------------------------------------------------------------------------
 \* operations (uniform record so that sets of them are comparable)
@@ -459,9 +466,10 @@ Dead == steps = MaxOpsOf(grp) \/ Diverged \/ ~ForSomeOp(LAMBDA op : OpEnabled(op
 \* ---------------------------------------------------------------------------
 \* what TLC checks
 \* ---------------------------------------------------------------------------
-\* every driver path gives the result of the OS's own call (modulo the named deviations)
+\* every driver path gives the result of the OS's own call
+PathsAgree == last.res = last.ref
+\* with deviations switched on: equal except where one is named
 PathsAgreeModuloKnown == last.dev \/ last.res = last.ref
-PathsAgreeStrict == last.res = last.ref
 \* a deviation flag is raised only on the paths that have one
 DevOnlyWhereNamed == last.dev => \/ last.o \in {"readv_at", "preadv"}
                                  \/ (last.path = "iour_entry" /\ last.o \in FileRW)
